@@ -41,11 +41,12 @@ def _case(draw, unit):
     mode = unit.get('mode') or draw(st.sampled_from(dwtu.MODES5))
     L = dwtu.flen(w)
     J = draw(st.sampled_from([1, 1, 2, 2, 3, 4]))
+    large = draw(st.integers(0, 19)) == 0         # 5%: sizes far beyond the usual caps (dense checks + column subset)
     if dim == 1:
-        size = [draw(dwtu.size_strategy(L, J, cap=max(96, min(2 * L + 8, 160))))]
+        size = [draw(dwtu.size_strategy(L, J, cap=2048 if large else max(96, min(2 * L + 8, 160))))]
     else:
-        size = [draw(dwtu.size_strategy(L, J, cap=20)),
-                draw(dwtu.size_strategy(L, J, cap=20))]
+        size = [draw(dwtu.size_strategy(L, J, cap=192 if large else 20)),
+                draw(dwtu.size_strategy(L, J, cap=192 if large else 20))]
     if mode == 'periodization':
         # keep most periodization cases outside the short-signal finding D1
         inside = draw(st.integers(0, 99)) < 15
@@ -69,8 +70,8 @@ def _case(draw, unit):
             size[1] = max(size[1], need2) if need2 <= 48 else size[1]
     return {
         'dim': dim, 'wave': w, 'wave_row': w2, 'mode': mode, 'J': J, 'size': size,
-        'N': draw(st.sampled_from([1, 1, 2, 3])),
-        'C': draw(st.sampled_from([1, 1, 2, 3])),
+        'N': draw(st.sampled_from([1, 1, 2, 3, 3, 9])),
+        'C': draw(st.sampled_from([1, 1, 2, 3, 5, 17])) if not large else draw(st.sampled_from([1, 2])),
         'dtype': draw(st.sampled_from(['f64', 'f64', 'f64', 'f64', 'f32'])),
         'wave_form': draw(st.sampled_from(['name', 'name', 'name', 'object', 'tuple', 'tuple'])),
         # 'per' is the accepted short spelling of 'periodization'
@@ -169,7 +170,7 @@ def run_case(case):
             'J>=2' if J >= 2 else None, 'C>1' if case['C'] > 1 else None,
             'N>1' if case['N'] > 1 else None,
             'nonsquare' if dim == 2 and size[0] != size[1] else None,
-            'L>=20' if L >= 20 else None,
+            'L>=20' if L >= 20 else None, 'large_size' if max(size) > 160 else None,
             'in_D1_predicate' if in_d1 else None,
             'reflect_may_raise' if may_raise else None)
     r.nontrivial = not (L == 2 and all(n % 2 == 0 for n in size) and J == 1)
